@@ -25,6 +25,8 @@ def noise(k):
             m.fit(ds, rs, X); out.append(m.predict(X[:3]))
     return out
 
+SHARED = {}
+
 def main():
     cases = json.load(open(sys.argv[1]))
     mode = sys.argv[2]
@@ -39,7 +41,26 @@ def main():
             for j, o in enumerate(c["ops"]):
                 if mode == "interleaved" and j % 2 == 0:
                     noise(k * 31 + j)
-                out = mwh.apply_op(mab, o, label, inv, c)
+                if mode == "interleaved" and o[0] == "warm":
+                    # the caller reuses ONE features dictionary for several bandits: a twin with the same arms (another seed, same
+                    # history so far) is warm-started with other feature values, then the dictionary is updated IN PLACE
+                    shared = SHARED.setdefault(k, {})
+                    try:
+                        twin, tl, ti = mwh.build_mab(dict(c, seed=c["seed"] + 17))
+                        for o2 in c["ops"][:j]:
+                            if o2[0] != "warm":
+                                mwh.apply_op(twin, o2, tl, ti, c)
+                        shared.clear(); shared.update({label(a): [float(len(o[1]) - i)] * max(1, len(f)) for i, (a, f) in enumerate(zip(o[1], o[2]))})
+                        twin.warm_start(shared, o[3])
+                    except Exception:
+                        pass
+                    shared.clear(); shared.update({label(a): list(f) for a, f in zip(o[1], o[2])})
+                    try:
+                        mab.warm_start(shared, o[3]); out = ("done",)
+                    except Exception as e:
+                        out = ("rejected", type(e).__name__)
+                else:
+                    out = mwh.apply_op(mab, o, label, inv, c)
                 if out[0] == "rejected":
                     out = ("rejected", out[1])
                 if o[0] in ("pred", "pexp"):
